@@ -38,19 +38,18 @@ from .common import coq_str, coq_list, coq_bool, coq_nat, coq_opt
 HEADER = ("From Coq Require Import List String Ascii Bool.\n"
           "From Bardic Require Import PyStr Value Compiled Lex ParseBase ParseLine ParseMain ParseCheck.")
 
-# Linking part B: with LINK_BLOCKS the whole-parse correspondence evaluates Compiler/ParseMain.v with the block
-# extractors of Compiler/ParseBlocks.v + ParseBlocksInst.v instead of stubs, and inputs with block constructs are
-# compared too.  Off until the coordinator has merged part B (env C11_LINK_BLOCKS=1 turns it on for a trial run).
-LINK_BLOCKS = os.environ.get("C11_LINK_BLOCKS") == "1"
+# Part B linked: the whole-parse correspondence evaluates Compiler/ParseMain.v with the block extractors of
+# Compiler/ParseBlocks.v + ParseBlocksInst.v (`real_extractors`, Proofs/ParseAllProofs.v), so inputs with block
+# constructs are compared too.  C11_LINK_BLOCKS=0 falls back to stub extractors and to inputs without blocks.
+LINK_BLOCKS = os.environ.get("C11_LINK_BLOCKS", "1") == "1"
 BLOCK_CONSTRUCTS = {"py-block", "if-block", "for-block", "join-block"}
 # the constructs the whole-parse correspondence may contain
 ALLOWED_CONSTRUCTS = {"import", "metadata", "start", "header", "comment", "render", "input", "hook", "unhook",
                       "join-marker", "jump", "stmt", "choice", "join-choice", "text", "glue", "blank", "other-at"} | \
     (BLOCK_CONSTRUCTS if LINK_BLOCKS else set())
-LINK_HEADER = ("\nFrom Bardic Require Import ParseBlocks ParseBlocksInst.\n"
-               "Definition linked : extractors := mkExtractors extract_python_block extract_conditional_block_real "
-               "extract_loop_block_real extract_join_choice_block_real.\n"
-               "Definition pcase_bad_l := pcase_bad_x linked.\nDefinition pcase_show_l := pcase_show_x linked.")
+LINK_HEADER = ("\nFrom Bardic Require Import ParseBlocks ParseBlocksInst ParseAllProofs.\n"
+               "Definition pcase_bad_l := pcase_bad_x real_extractors.\n"
+               "Definition pcase_show_l := pcase_show_x real_extractors.")
 
 ALARM_S = 5
 MAX_MODEL_LINE = 1500  # longer lines (only the pinned deep-nesting probes) are not sent to Coq: the model's string
@@ -618,7 +617,7 @@ class Probe:
     """Wraps ast.parse and core's four block extractors while one input is compiled."""
 
     def __init__(self):
-        self.stmt, self.calls, self.used, self.oracle_escapes = {}, {}, set(), []
+        self.stmt, self.calls, self.used, self.oracle_escapes, self.gave_up = {}, {}, set(), [], []
 
     def __enter__(self):
         from bardic.compiler.parsing import core
@@ -650,6 +649,15 @@ class Probe:
             try:
                 tree = probe.real_parse(source, *a, **k)
             except SyntaxError:
+                if mode == "eval" and isinstance(source, str) and source.startswith("_temp_("):
+                    probe.calls[source[7:-1]] = (None, True)
+                else:
+                    probe.stmt[source] = False
+                raise
+            except (RecursionError, MemoryError, ValueError) as e:
+                # Python's parser gave up: the compiler reports that as a SyntaxError (fix 6f31489), so the
+                # oracle's answer is "does not parse"; counted, so that the evidence shows it happened
+                probe.gave_up.append((mode, type(e).__name__))
                 if mode == "eval" and isinstance(source, str) and source.startswith("_temp_("):
                     probe.calls[source[7:-1]] = (None, True)
                 else:
@@ -794,14 +802,86 @@ def pcase_term(lines, pr, oc):
     return f"({coq_list(cs(l) for l in lines)}, {st}, {ct}, {robs(oc, story_term)})"
 
 
+class SubCheck:
+    """What harness/c11b.py sees as its Check: reports, disagreements, counts and samples go to the C11 Check,
+    coverage numbers and notes are kept apart and merged under "part_b" afterwards."""
+
+    def __init__(self, main, seed):
+        import random
+        self.main = main
+        self.pid, self.tier, self.seed = main.pid, main.tier, seed
+        self.rng = random.Random(seed)
+        self.scratch = os.path.join(main.scratch, "part_b")
+        os.makedirs(self.scratch, exist_ok=True)
+        self.cov, self.notes, self.assumptions = {"samples": []}, {}, []
+        self.finished = None
+
+    def known_signatures(self):
+        return self.main.known_signatures()
+
+    def report(self, signature, what, replay):
+        self.main.report(signature, what, replay)
+
+    def disagree(self, label, what, replay):
+        self.main.disagree("blocks:" + label, what, replay)
+
+    def count(self, key, nontrivial):
+        self.main.count(("b", key), nontrivial)
+
+    def sample(self, s_):
+        if len(self.cov["samples"]) < 2:
+            self.cov["samples"].append(s_)
+
+    def finish(self, props, trusted_base, checker_cmd):
+        self.finished = {"trusted_base": trusted_base}
+        return 0
+
+
+def run_part_b(chk, tier, seed):
+    """Part B's correspondence and direct oracle (harness/c11b.py) under this Check, and the theorems of
+    Props/C11b.v.  Returns the props dict of C11b."""
+    from . import c11b
+    sub = SubCheck(chk, seed)
+    box = {}
+
+    def gate(_):
+        box["props"] = C.check_props("C11b", chk.scratch)
+        return box["props"]
+
+    saved = (C.Check, C.coq_gate)
+    C.Check, C.coq_gate = (lambda *a, **k: sub), gate
+    try:
+        c11b.run(tier, seed)
+    finally:
+        C.Check, C.coq_gate = saved
+    chk.notes["part_b"] = {"coverage": {k: v for k, v in sub.cov.items()}, **sub.notes}
+    chk.assumptions_b = sub.assumptions
+    return box.get("props"), sub
+
+
+def merge_props(pa, pb):
+    if pb is None:
+        return pa
+    return {"obligations": pa["obligations"] + pb["obligations"], "discharged": pa["discharged"] + pb["discharged"],
+            "theorems": list(pa["theorems"]) + [("C11b." + n, a) for n, a in pb["theorems"]],
+            "ok": pa.get("ok", False) and pb.get("ok", False), "names": pa.get("names", []) + pb.get("names", [])}
+
+
 def run(tier: str, seed: int) -> int:
-    chk = C.Check("C11", tier, seed, "proof (partial: block extractors behind a contract) + correspondence + direct oracle")
+    chk = C.Check("C11", tier, seed, "proof + correspondence + direct oracle")
     props = C.coq_gate(chk)
+    # ---------------- part B: the block extractors (harness/c11b.py, Props/C11b.v) ----------------
+    props_b, sub = run_part_b(chk, tier, seed)
+    if props_b is None or not props_b.get("ok"):
+        chk.violations.append(("coq-props", "Props/C11b.v does not check or depends on axioms",
+                               {"no_failing_input_found": True, "obligation": "Props/C11b.v",
+                                "log": (props_b or {}).get("log", "")}))
+    props = merge_props(props, props_b)
     C.use_repo()
     rng = chk.rng
     quick = tier == "quick"
     n_rand, n_shaped, n_harvest, n_multi, n_gen_plain, n_gen_blocks, n_mut_per_file = \
-        (500, 1500, 500, 200, 700, 500, 8) if quick else (3000, 8000, 3000, 1500, 5000, 4000, 60)
+        (500, 1500, 500, 200, 500, 400, 6) if quick else (3000, 8000, 3000, 1500, 5000, 4000, 60)
     dist = {"line_functions": {}, "line_kinds": {}, "outcomes": {}, "mutations": {}, "constructs_used": {},
             "families": {}}
 
@@ -889,6 +969,9 @@ def run(tier: str, seed: int) -> int:
             chk.report(f"timeout:{shape_tag or fam}", f"compile_string did not return within {ALARM_S}s", replay)
         elif oc[0] == "other":
             chk.report(f"internal-error:{oc[1]}:{oc[2]}", f"compile_string raised {oc[1]} (in {oc[2]}) on a {fam} input", replay)
+        for mode, exn in pr.gave_up:
+            g = chk.notes.setdefault("ast_parse_gave_up", {})
+            g[f"{mode}:{exn}"] = g.get(f"{mode}:{exn}", 0) + 1
         for mode, src, exn in pr.oracle_escapes:
             chk.notes.setdefault("oracle_assumption_escapes", {}).setdefault(f"ast.parse[{mode}]:{exn}", 0)
             chk.notes["oracle_assumption_escapes"][f"ast.parse[{mode}]:{exn}"] += 1
@@ -931,27 +1014,28 @@ def run(tier: str, seed: int) -> int:
                                   f"(implementation: {d['implementation']})", d)
         else:
             chk.disagree("parse-coqc", "a whole-parse case shard failed to evaluate", {"log": log[-3000:]})
-    chk.cov["programs"] = len(lcases) + len(inputs)
-    chk.cov["disagreements_checked"] = len(lcases) + len(pterms)
-    chk.cov["disagreements_found"] = n_dis
+    b_cov = sub.cov
+    chk.cov["programs"] = len(lcases) + len(inputs) + b_cov.get("programs", 0)
+    chk.cov["disagreements_checked"] = len(lcases) + len(pterms) + b_cov.get("disagreements_checked", 0)
+    chk.cov["disagreements_found"] = n_dis + b_cov.get("disagreements_found", 0)
     chk.cov["rule"] = ("line cases: one per (function, distinct line). whole inputs: distinct by source text; non-trivial = the "
                        "real compiler accepted it with at least one passage")
     dist["whole_parse_cases_compared"] = len(pterms)
     dist["whole_parse_cases_skipped"] = skipped
     chk.notes["input_distribution"] = dist
     chk.notes["constructs_covered_by_model"] = {
-        "main_loop_and_post_passes": sorted(ALLOWED_CONSTRUCTS),
-        "behind_extractor_contract_not_linked_in_this_run": sorted(BLOCK_CONSTRUCTS - ALLOWED_CONSTRUCTS)}
+        "compared_in_the_whole_parse_correspondence": sorted(ALLOWED_CONSTRUCTS),
+        "block_extractors_linked": LINK_BLOCKS,
+        "not_linked_in_this_run": sorted(BLOCK_CONSTRUCTS - ALLOWED_CONSTRUCTS)}
     chk.assumptions = [
         "model domain: ASCII lines without newline characters; non-ASCII inputs are covered by the totality oracle only",
-        "Python's own parser is an oracle with two outcomes (accepts / SyntaxError); when ast.parse escapes with another "
-        "exception (RecursionError on very deep expressions) the case is reported by the totality oracle and left out of "
-        "the correspondence",
-        "the interpreter's recursion limit is outside the model (parse_content_line_lim makes the depth explicit; the "
-        "ideal parse_content_line has an unbounded stack)",
-    ]
+        "Python's own parser is an oracle with two outcomes (accepts / does not parse); RecursionError, MemoryError and "
+        "ValueError out of ast.parse count as 'does not parse', which is what the compiler does with them",
+        "the interpreter's recursion limit is outside the model; the compiler's own recursion is capped (blocks 100, inline "
+        "conditionals 50)",
+    ] + list(getattr(chk, "assumptions_b", []))
     return chk.finish(props, C.BASE_TRUST + [
-        "modelled: bardic/compiler/parsing/{core,content,directives,validation}.py; blocks.py behind the extractor contract",
+        "modelled: bardic/compiler/parsing/{core,content,directives,validation,blocks}.py",
         "the instrumentation of one compile (ast.parse and the four extractor names in core's namespace are wrapped to "
         "record what was asked / used)"],
-        "make -C /verif/coq && coqc -Q /verif/coq Bardic /verif/coq/Props/C11.v")
+        "make -C /verif/coq && coqc -Q /verif/coq Bardic /verif/coq/Props/C11.v && coqc -Q /verif/coq Bardic /verif/coq/Props/C11b.v")
